@@ -33,6 +33,10 @@ from .reply import Reply
 
 __all__ = ['ServerAuthError', 'AuthSession']
 
+#: Mechanisms that send the secret itself over the wire. pysasl >= 1 no longer
+#: flags them with an ``insecure`` attribute.
+insecure_mechanisms = frozenset([b'PLAIN', b'LOGIN'])
+
 noarg_pattern = re.compile(br'^([a-zA-Z0-9_-]+)$')
 witharg_pattern = re.compile(br'^([a-zA-Z0-9_-]+)\s+(.+)$')
 
@@ -130,7 +134,8 @@ class AuthSession(object):
         mechanism_name, mechanism_arg = self._parse_arg(arg)
         mechanism = self.auth.get_server(mechanism_name)
         if mechanism:
-            insecure = getattr(mechanism, 'insecure', False)
+            insecure = getattr(mechanism, 'insecure',
+                               mechanism.name in insecure_mechanisms)
             if insecure and not self.io.encrypted:
                 raise InsecureMechanismError()
             responses = []
